@@ -101,11 +101,23 @@ func c08Track(fs *Facts) {
 	if fsb, err := Load(c08SwampBucket); err != nil {
 		std = false
 	} else {
-		std = std && c07InOrder(c07Body(fsb, "swamp", "GetOrBuildBucket"),
-			"if b, ok := s.buckets[fieldPath]; ok && b.EqualityInitialized() {", "return b",
-			"b, exists := s.buckets[fieldPath] if !exists { b = bucket.New(fieldPath) b.SetBuildInFlight(true) s.buckets[fieldPath] = b }",
-			"if !b.EqualityInitialized() { snapshot := s.beaconKey.CloneUnorderedTreasures(false) _ = b.BuildEquality(snapshot) _ = b.DrainPending() }",
-			"return b")
+		gob := c07Body(fsb, "swamp", "GetOrBuildBucket")
+		const publish = "b, exists := s.buckets[fieldPath] if !exists { b = bucket.New(fieldPath) b.SetBuildInFlight(true) s.buckets[fieldPath] = b }"
+		// a reader takes a bucket that is EqualityInitialized as it is …
+		asIs := c07InOrder(gob, "if b, ok := s.buckets[fieldPath]; ok && b.EqualityInitialized() { s.bucketsMu.RUnlock() return b }", publish,
+			"if !b.EqualityInitialized() { snapshot := s.beaconKey.CloneUnorderedTreasures(false) _ = b.BuildEquality(snapshot) _ = b.DrainPending() } return b")
+		// … or only once no build is in flight, draining the buffer itself otherwise (drains are serialised)
+		drains := c07InOrder(gob, "if b, ok := s.buckets[fieldPath]; ok && b.EqualityInitialized() && !b.BuildInFlight() { s.bucketsMu.RUnlock() return b }", publish,
+			"if !b.EqualityInitialized() { snapshot := s.beaconKey.CloneUnorderedTreasures(false) _ = b.BuildEquality(snapshot) } if b.BuildInFlight() { _ = b.DrainPending() } return b") &&
+			strings.HasPrefix(drain, "{ b.drainMu.Lock() defer b.drainMu.Unlock() for {")
+		if fd := fsb.Func("swamp", "GetOrBuildBucket"); fd != nil {
+			if asIs {
+				fs.Tri("readerDrainsInFlight", No, c08At(c08SwampBucket, fsb, fd))
+			} else if drains {
+				fs.Tri("readerDrainsInFlight", Yes, c08At(c08SwampBucket, fsb, fd))
+			}
+		}
+		std = std && (asIs || drains)
 		for nm, call := range map[string]string{"notifyBucketsInsert": "_ = b.OnInsert(t)", "notifyBucketsUpdate": "_ = b.OnUpdate(t)", "notifyBucketsDelete": "b.OnDelete(key)"} {
 			std = std && c07InOrder(c07Body(fsb, "swamp", nm), "for _, b := range s.buckets { bs = append(bs, b) }", "for _, b := range bs { "+call+" }")
 		}
